@@ -39,12 +39,32 @@ def target_connection_emitters():
                     def to_string(self, decimals=-1):
                         asked.append((self.name, decimals))
                         return f"<{self.name}>"
-                ns = {"map": map}
+                class Connection:          # what `isinstance(x, Connection)` in the emitters refers to
+                    pass
+
+                class EmptyConnection(Connection, Child):
+                    """a nested connection without children: it still has a text ('[]' / '()') and a meaning (an empty series in a
+                    parallel connection is a short), so it must not be left out"""
+
+                    def __init__(self):
+                        Child.__init__(self, "empty")
+
+                    def __len__(self):
+                        return 0
+
+                    def __iter__(self):
+                        return iter(())
+                ns = {"map": map, "filter": filter, "isinstance": isinstance, "len": len, "Connection": Connection}
                 me = type("Me", (O.auto_methods("circuit/base", "Connection", ns),), {"_elements": [Child("a"), Child("b"), Child("c")]})()
                 O.load(module, [qual], ns)
                 out = ns["to_string"](me, decimals=decimals)
                 sess.check("post", [], z3.BoolVal(out == f"{lo}<a><b><c>{hi}" and asked == [("a", decimals), ("b", decimals), ("c", decimals)]), 0,
                            label=f"{qual}(decimals={decimals}) == '{lo}' + children in order (same decimals, each asked once) + '{hi}'")
+                asked.clear()
+                me2 = type("Me", (O.auto_methods("circuit/base", "Connection", ns),), {"_elements": [Child("a"), EmptyConnection(), Child("b")]})()
+                out = ns["to_string"](me2, decimals=decimals)
+                sess.check("post", [], z3.BoolVal(out == f"{lo}<a><empty><b>{hi}" and asked == [("a", decimals), ("empty", decimals), ("b", decimals)]), 0,
+                           label=f"{qual}(decimals={decimals}): a nested connection without children is printed like any other child (it is not left out)")
                 empty = type("Me", (O.auto_methods("circuit/base", "Connection", ns),), {"_elements": []})()
                 sess.check("post", [], z3.BoolVal(ns["to_string"](empty, decimals=decimals) == lo + hi), 0, label=f"{qual}(decimals={decimals}) of an empty connection == '{lo}{hi}'")
         # Circuit
@@ -270,3 +290,117 @@ _targets_c03_with_container_emitter = targets
 
 def targets():      # noqa: F811
     return _targets_c03_with_container_emitter() + [target_limit_checks()]
+
+
+_targets_before_assembly = targets
+
+
+def target_process_assembly():
+    """`Parser.process`, from what the top-level loop leaves on the stack to the circuit: several items become ONE series holding
+    exactly those items in input order (the stack is popped in reverse) -- a bracketed series among them may be kept as one child or
+    merged in place, which the property allows, but nothing is lost, duplicated or moved: `R[CL](RC)` is R, C, L, (RC) in that order; a single item becomes the circuit's
+    series as it is if it is a series and is wrapped in one otherwise; the circuit is built from that series.  The real method runs
+    on recording stand-ins: the tokenizer and `main_loop` are stubs that leave the given nodes on the stack."""
+    import z3
+    from pyvc import overload as O
+    from pyvc.core import Session
+
+    def run(sess: Session):
+        class Element:
+            def __init__(self, name):
+                self.name = name
+
+        class Connection:
+            pass
+
+        class Series(Connection):
+            def __init__(self, elements):
+                self._elements = list(elements)
+                self.made_by_process = True
+
+        class Parallel(Connection):
+            def __init__(self, elements=()):
+                self._elements = list(elements)
+
+        class Circuit:
+            def __init__(self, con):
+                self.con = con
+
+        def mk_series(tag, kids):
+            s_ = Series.__new__(Series)
+            s_._elements, s_.made_by_process, s_.tag = list(kids), False, tag
+            return s_
+        r, c, l_ = Element("R"), Element("C"), Element("L")
+        inner = mk_series("[CL]", [c, l_])
+        par = Parallel([Element("R2"), Element("C2")])
+        cases = {"R[CL](RC)": [r, inner, par], "[CL]R": [mk_series("[CL]", [c, l_]), r], "single series": [mk_series("[RC]", [r, c])], "single element": [r], "single parallel": [par]}
+        for name, items in cases.items():
+            class Me:
+                def __init__(self):
+                    self._stack, self._tokens, self.loops = [], [], 0
+
+                def migrate(self, version=-1):
+                    pass
+
+                def main_loop(self):
+                    # what the real main loop does, seen from process(): consumes tokens, pushes finished nodes (newest on top)
+                    self._tokens.pop(0)
+                    self._stack.insert(0, items[self.loops])
+                    self.loops += 1
+
+                def pop_stack(self):
+                    return self._stack.pop(0)
+
+                def push_stack(self, item):
+                    self._stack.insert(0, item)
+
+                def is_stack_empty(self):
+                    return len(self._stack) == 0
+
+                def get_stack_length(self):
+                    return len(self._stack)
+            ns = {"Series": Series, "Parallel": Parallel, "Element": Element, "Connection": Connection, "Circuit": Circuit, "isinstance": isinstance, "type": type, "len": len,
+                  "Tokenizer": type("Tokenizer", (), {"process": lambda self, s_: [f"token{k}" for k in range(len(items))]}), "ParsingError": type("ParsingError", (Exception,), {})}
+            O.load("circuit/parser", ["Parser.process"], ns)
+            me = Me()
+            out = ns["process"](me, "some code")
+            tag = f" [{name}]"
+            ok = isinstance(out, Circuit) and isinstance(out.con, Series)
+            sess.check("post", [], z3.BoolVal(ok and not me._stack), 0, label="the circuit is built from a series and the stack is used up" + tag)
+            if not ok:
+                continue
+            def flat(xs):
+                out_ = []
+                for x in xs:
+                    if isinstance(x, Series):
+                        out_ += flat(x._elements)
+                    else:
+                        out_.append(x)
+                return out_
+            if len(items) > 1:
+                kids = out.con._elements
+                # (the property allows directly nested series to be merged into the series that holds them, so the comparison is
+                # made on the flattened sequences; what must not happen is an item lost, duplicated or moved)
+                sess.check("post", [], z3.BoolVal(len(flat(kids)) == len(flat(items)) and all(a is b for a, b in zip(flat(kids), flat(items)))), 0,
+                           label="the top-level series holds exactly what the loop produced, in input order (nested series merged or kept, nothing lost, duplicated or moved)" + tag)
+                sess.check("post", [], z3.BoolVal(all(not isinstance(k, Parallel) or len(k._elements) == 2 for k in kids)), 0, label="nested parallel connections keep their own children" + tag)
+            elif isinstance(items[0], Series):
+                sess.check("post", [], z3.BoolVal(out.con is items[0]), 0, label="a single series is the circuit's series as it is" + tag)
+            else:
+                sess.check("post", [], z3.BoolVal(out.con.made_by_process and len(out.con._elements) == 1 and out.con._elements[0] is items[0]), 0, label="a single element or parallel connection is wrapped in a series" + tag)
+    return ("circuit/parser:Parser.process[what the stack becomes]", "circuit/parser", "Parser.process", run)
+
+
+def targets():      # noqa: F811
+    return _targets_before_assembly() + [target_process_assembly()]
+
+
+_targets_before_setters = targets
+
+
+def targets():      # noqa: F811
+    """+ shared with C14: `Parser.element` builds the element through the setters, so the values, limits and flags that were
+    written are the ones read back only if each setter stores exactly what it is given (a limit of 0 is a limit, not 'no limit')"""
+    from . import c14
+    shared = [t for t in c14._targets_before_roundtrip() if any(k in t[0] for k in ("Element.set_values[kw]", "Element.set_lower_limits[kw]", "Element.set_upper_limits[kw]", "Element.set_fixed[kw]"))]
+    return _targets_before_setters() + shared
